@@ -131,6 +131,12 @@ func (e *Enc) callCommon(fr *Frame, st *State, cc *ssa.CallCommon, fnv *Val, arg
 			return e.applyContract(fr, st, c, append([]*Val{recv}, args...), rt, hint, pos)
 		}
 		e.safety(fr, st, "nil", not(eq(recv.L[0].T, "0")), "method call on nil interface "+cc.Method.Name(), pos)
+		// no contract on the interface method and the dynamic type is not known: when the interface has few implementations
+		// in the packages under verification, split on the dynamic type (concrete method: its contract or its body) and keep
+		// the unknown-callee treatment for every other dynamic type
+		if cands := e.implementers(cc.Value.Type(), cc.Method); len(cands) > 0 && len(cands) <= 8 && st.reach != "false" {
+			return e.dispatchInvoke(fr, st, cc, recv, args, cands, key, rt, hint, pos)
+		}
 		return e.defaultCall(fr, st, key, append([]*Val{recv}, args...), rt, hint, pos)
 	}
 	if fnv != nil && fnv.Clos != nil {
@@ -196,6 +202,121 @@ func (e *Enc) callCommon(fr *Frame, st *State, cc *ssa.CallCommon, fnv *Val, arg
 	// object and every component of the abstract state
 	e.havocAll(st)
 	return e.defaultCall(fr, st, dk, args, rt, hint, pos)
+}
+
+// implementers: the concrete types declared in the root packages (T and *T, in a fixed order) whose method set satisfies
+// the interface type it and whose method m has a body or a callable contract.
+func (e *Enc) implementers(it types.Type, m *types.Func) []types.Type {
+	iface, ok := it.Underlying().(*types.Interface)
+	if !ok {
+		return nil
+	}
+	k := typeStr(it) + "." + m.Name()
+	if c, ok := e.implCache[k]; ok {
+		return c
+	}
+	var out []types.Type
+	for _, path := range sortedKeys(e.P.Roots) {
+		sp := e.P.Roots[path]
+		for _, name := range sortedKeys(sp.Members) {
+			tm, ok := sp.Members[name].(*ssa.Type)
+			if !ok {
+				continue
+			}
+			T := tm.Type()
+			if _, isI := T.Underlying().(*types.Interface); isI {
+				continue
+			}
+			if nt, ok := T.(*types.Named); ok && nt.TypeParams().Len() > 0 {
+				continue
+			}
+			for _, ct := range []types.Type{T, types.NewPointer(T)} {
+				if !types.Implements(ct, iface) {
+					continue
+				}
+				fn := e.P.SSA.LookupMethod(ct, m.Pkg(), m.Name())
+				if fn == nil {
+					continue
+				}
+				if c0, hasC := e.DB.Contracts[fnKey(fn)]; fn.Blocks != nil || (hasC && c0.callable()) {
+					out = append(out, ct)
+				}
+			}
+		}
+	}
+	if e.implCache == nil {
+		e.implCache = map[string][]types.Type{}
+	}
+	e.implCache[k] = out
+	return out
+}
+
+// declaredInRoots: the (named) type is declared in one of the packages under verification.
+func (e *Enc) declaredInRoots(t types.Type) bool {
+	nt, ok := t.(*types.Named)
+	if !ok || nt.Obj() == nil || nt.Obj().Pkg() == nil {
+		return false
+	}
+	_, ok = e.P.Roots[nt.Obj().Pkg().Path()]
+	return ok
+}
+
+// dispatchInvoke: interface method call with unknown dynamic type, split over the candidate implementations.
+func (e *Enc) dispatchInvoke(fr *Frame, st *State, cc *ssa.CallCommon, recv *Val, args []*Val, cands []types.Type, key string, rt types.Type, hint string, pos token.Pos) *Val {
+	var sts []*State
+	var conds []string
+	var ress []*Val
+	var others []string
+	for i, ct := range cands {
+		isT := eq(recv.L[0].T, fmt.Sprint(e.TI.tagOf(ct)))
+		others = append(others, not(isT))
+		b := st.clone()
+		b.reach = e.nameBool(fmt.Sprintf("%s!dyn%d", hint, i), and(st.reach, isT))
+		fn := e.P.SSA.LookupMethod(ct, cc.Method.Pkg(), cc.Method.Name())
+		rv := e.unboxAs(b, recv.L[1].T, ct)
+		r := e.callStatic(fr, b, fn, nil, append([]*Val{rv}, args...), rt, fmt.Sprintf("%s!d%d", hint, i), pos)
+		if b.reach == "false" {
+			continue
+		}
+		sts, conds, ress = append(sts, b), append(conds, b.reach), append(ress, r)
+	}
+	if e.declaredInRoots(cc.Value.Type()) {
+		// the interface is declared in a package under verification: its implementations are the ones found there. That the
+		// dynamic type is one of them is an OBLIGATION of the caller (never assumed silently); under it no unknown callee
+		// remains. (Havocking everything on an "other type" branch would make every heap component of the function a
+		// written one.)
+		var isOne []string
+		for _, o := range others {
+			isOne = append(isOne, not(o))
+		}
+		g := or(isOne...)
+		e.addObl(&Obligation{Name: e.site(fr, "call:"+fr.curCallClass, pos) + ":known_dynamic_type", Kind: "requires", Label: "", Clause: "the dynamic type of the receiver of " + key + " is one of its implementations in the packages under verification", Reach: st.reach, Goal: g, Pos: e.posStr(pos)})
+		e.assume(st, g)
+	} else {
+		d := st.clone()
+		d.reach = e.nameBool(hint+"!dynother", and(append([]string{st.reach}, others...)...))
+		r := e.defaultCall(fr, d, key, append([]*Val{recv}, args...), rt, hint+"!dx", pos)
+		sts, conds, ress = append(sts, d), append(conds, d.reach), append(ress, r)
+	}
+	if len(sts) == 0 {
+		st.reach = "false"
+		if rt == nil {
+			return &Val{}
+		}
+		return e.zeroVal(rt)
+	}
+	m := e.mergeStates(hint+"!dyn", sts, conds)
+	*st = *m
+	if rt == nil {
+		return &Val{}
+	}
+	res := e.mergeVals(hint+"!dynres", ress, conds)
+	if res != nil && res.Clos == nil && res.Loc == nil {
+		r2 := *res
+		r2.T = rt
+		return &r2
+	}
+	return res
 }
 
 // callAssertSeen records that the call site named by key exists (a call-site assertion whose site has disappeared is an
@@ -862,11 +983,13 @@ func (e *Enc) encAppend(fr *Frame, st *State, cc *ssa.CallCommon, args []*Val, r
 		inNew := "(and (<= (+ " + no + " " + ln + ") q) (< q (+ " + no + " " + nlen + ")))"
 		outside := "(or (< q " + no + ") (>= q (+ " + no + " " + nlen + ")))"
 		e.assert("(forall ((q Int)) (! (and (=> " + inOld + " (= (select " + na + " q) " + oldAt + ")) (=> " + inNew + " (= (select " + na + " q) " + src + ")) (=> (and " + fits + " " + outside + ") (= (select " + na + " q) (select (select " + h + " " + base + ") q)))) :pattern ((select " + na + " q))))")
+		e.writeTarget = nb
 		if !isStr {
 			// appending exactly one element (the common case): the new cell directly
 			e.assert("(=> (= " + tlen + " 1) (= (select " + na + " (+ " + no + " " + ln + ")) (select (select " + h + " " + tbase + ") " + toff + ")))")
 		}
 		e.withRef(base, func() { e.heapSet(st, k, sorts[i], "(store "+h+" "+nb+" "+na+")") }) // base itself, or a new backing
+		e.writeTarget = ""
 		if b, ok := sl.Elem().Underlying().(*types.Basic); ok && b.Kind() == types.Uint8 && !isStr && len(keys) == 1 {
 			e.bcatFact(e.bseqTerm(na, no, nlen), e.bseqTerm("(select "+h+" "+base+")", off, ln), e.bseqTerm("(select "+h+" "+tbase+")", toff, tlen))
 		}
